@@ -77,6 +77,8 @@ type world struct {
 
 	sc    *deployed    // system call probe
 	ps    []*deployed  // P1..P4: hop / leaf / safe probes
+	tk    []*deployed  // TK, TKP: method token probes
+	th    *deployed    // TH: token hop of call chains
 	ts    []*deployed  // permission callees
 	cs    []*deployed  // permission callers
 	csDef []callerSpec // their permission specs (same order)
@@ -206,6 +208,9 @@ func buildWorld() (*world, error) {
 	if w.ps, err = w.deployAll(deployer, pcs); err != nil {
 		return nil, err
 	}
+	if err := w.deployTokenProbes(); err != nil {
+		return nil, err
+	}
 	// Background for the native methods: a blocked account, a notary deposit that is expired by the end of the setup,
 	// a pending oracle request (id 0) made by P1, a whitelisted method.
 	if err := w.block([]ck.Action{
@@ -223,7 +228,7 @@ func buildWorld() (*world, error) {
 	}
 	// Fund the probes (they receive GAS through onNEP17Payment) so that leaves can transfer.
 	var fund []ck.Action
-	for _, d := range append([]*deployed{w.sc}, w.ps...) {
+	for _, d := range append(append([]*deployed{w.sc}, w.ps...), w.tk...) {
 		fund = append(fund, ck.Action{Kind: "raw", From: 0, S: "fund " + d.Name, Nonce: w.next(),
 			V: append(appCall(nativehashes.GasToken, "transfer", callflag.All, ck.Accounts[0].Hash, d.Hash, int64(100_0000_0000), nil), byte(opcode.ASSERT))})
 	}
